@@ -7,6 +7,7 @@ import GmQuic.Lemmas.StreamLiveN
 import GmQuic.Lemmas.StreamLiveV
 import GmQuic.Lemmas.StreamWinC
 import GmQuic.Lemmas.StreamWinD
+import GmQuic.Lemmas.StreamWinE
 /-!
 C01 — stream data is delivered reliably, in order, exactly once.
 
@@ -498,5 +499,52 @@ theorem completes_after_every_history_windowed (w : Nat) (hw : 0 < w) (l : List 
 -- non-vacuity: the 10-byte stream behind the 4-byte window is such a history
 example : exWin = after 4 4 (hops [.write [1, 2, 3, 4, 5, 6, 7, 8, 9, 10]]) ∧ (0 : Nat) < 4 ∧
     exWin.snd.written.length < varintMax := ⟨rfl, by decide, by decide⟩
+
+/-- LIVENESS WITH FLOW CONTROL when the application never shuts the stream down (the other half of "EOF iff shutdown was
+called"): from every `Fair` state in which `shutdown` was not called, with `WinOk`, for EVERY schedule `cs` of rounds
+WITHOUT `shutdown` (`wroundO`, `SchedO`) at least as long as the window deficit, the suffix of `eventually_flushed` ends
+with every written byte read, every byte acknowledged, `poll_flush` = `Ready(Ok)`, and NO end-of-stream reported. -/
+theorem eventually_flushed_windowed (s0 : Stream) (hf : Fair s0)
+    (hopen : s0.snd.shutdown = false ∧ (s0.snd.st = .ready ∨ s0.snd.st = .sending)) (hw : WinOk s0)
+    (hlen : s0.snd.written.length < varintMax) (cap : Nat) (hcap : s0.snd.written.length < cap)
+    (cs : List Choice) (hs : SchedO cap s0 cs)
+    (hn : s0.snd.written.length - s0.snd.maxData ≤ cs.length ∨
+      s0.snd.written.length ≤ (cs.foldl (wroundO cap) s0).snd.maxData)
+    (keep : Nat → Bool) (ps : List (Nat × Nat)) :
+    let s1 := cs.foldl (wroundO cap) s0
+    let s2 := s1.run (settleOps keep (List.range s1.emitted.length))
+    PickSeq s2 ps →
+    let s3 := s2.run (pickOps ps)
+    s3.snd.somePick = none →
+    let t := s3.run (settleOps (fun _ => true) (List.range' s1.emitted.length (s3.emitted.length - s1.emitted.length)) ++
+                      [.read cap])
+    t.out = s0.snd.written ∧ t.snd.written = s0.snd.written ∧ t.snd.pollFlush = "ready" ∧ t.snd.allAcked ∧
+      t.eof = false := by
+  intro s1 s2 hps s3 hidle t
+  have ho : Open s0.snd := ⟨hf.snd.1, hopen.1, hopen.2⟩
+  obtain ⟨f1, o1, w1, g1⟩ := schedO_spec cap cs hf ho hw hlen hcap hs
+  have hfit : s1.snd.written.length ≤ s1.snd.maxData := by
+    rcases g1 with g | g
+    · exact g
+    · show (cs.foldl (wroundO cap) s0).snd.written.length ≤ (cs.foldl (wroundO cap) s0).snd.maxData
+      rw [w1]
+      rcases hn with h | h
+      · omega
+      · exact h
+  have hc := eventually_flushed s1 f1 ⟨o1.2.1, o1.2.2⟩ hfit keep ps cap
+    (by show (cs.foldl (wroundO cap) s0).snd.written.length < cap; rw [w1]; exact hcap) hps hidle
+  have w1' : s1.snd.written = s0.snd.written := w1
+  rw [w1'] at hc
+  exact hc
+
+-- non-vacuity: the 10-byte stream behind the 4-byte window, never shut down
+example : SchedO 11 exWin [(fun _ => true, [(0, 4)])] :=
+  ⟨⟨⟨by decide, Or.inl (by decide), trivial⟩, by decide⟩, trivial⟩
+example :
+    let s1 := wroundO 11 exWin (fun _ => true, [(0, 4)])
+    let s2 := s1.run (settleOps (fun _ => true) (List.range s1.emitted.length))
+    s1.snd.maxData = 2000004 ∧ s2.snd.pickOk 4 6 ∧ (s2.run (pickOps [(4, 6)])).snd.somePick = none ∧
+    let t := (s2.run (pickOps [(4, 6)])).run (settleOps (fun _ => true) (List.range' 1 1) ++ [.read 11])
+    t.out = [1, 2, 3, 4, 5, 6, 7, 8, 9, 10] ∧ t.snd.pollFlush = "ready" ∧ t.eof = false ∧ t.snd.st = .sending := by decide
 
 end GmQuic.Stream
